@@ -395,7 +395,7 @@ def run(cx):
     hf = hm_rgb.func("RGBLed.fade")
     hl = Locals(hf)
     host_value, step_iter = c19.host_fade_kernel(hm_rgb)
-    r.check(step_iter == "range(1, steps + 1)", "host.fade/steps-1..steps", (hm_rgb, hf), "host fade must take steps i = 1..steps")
+    r.check(all(step_iter(a_, b_, s_) == s_ for a_, b_, s_ in ((0, 255, 1), (0, 255, 5), (200, 3, 16), (10, 17, 50))), "host.fade/steps-1..steps", (hm_rgb, hf), "host fade must take exactly `steps` steps (i = 1..steps)")
     res = pe.emit_program(setup=[l2.decl_node("RGBLed"), cls["RGBLedFade"](name="dev", red="H_r", green="H_g", blue="H_b", duration_ms="H_d", steps="H_s")], loop=[])
     b0 = l2.functions_of(pe.emit_program(setup=[l2.decl_node("RGBLed")], loop=[]).text, ["setup"])["setup"][0]["body"]
     body = l2.functions_of(res.text, ["setup"])["setup"][0]["body"][len(b0):]
